@@ -62,15 +62,30 @@ Lin(p) == /\ pend[p].s = "inv"
 
 \* back-pressure: adds returned so far exceed removals invoked so far by at
 \* most the capacity (only meaningful in histories without clear)
+\* when a RemoveAll returns (x.rs) the counts restart: the removals still pending
+\* may claim values added afterwards
 Ret == /\ l <= Len(Trace) /\ Trace[l].e = "ret"
        /\ LET x == Trace[l] IN
           /\ pend[x.p].s = "lin" /\ pend[x.p].r = x.r
           /\ pend' = [pend EXCEPT ![x.p] = Idle]
-          /\ nadd' = IF pend[x.p].op = "add" THEN nadd + 1 ELSE nadd
+          /\ nadd' = IF x.rs THEN 0 ELSE IF pend[x.p].op = "add" THEN nadd + 1 ELSE nadd
+          /\ nrem' = IF x.rs THEN Cardinality({q \in Procs : q # x.p /\ pend[q].s \in {"inv", "lin"} /\
+                                                 (IF pend[q].s = "inv" THEN pend[q].c.op ELSE pend[q].op) = "rem"})
+                     ELSE nrem
           /\ (pend[x.p].op = "add" /\ x.bp) => nadd + 1 - nrem <= st.cap
-       /\ l' = l + 1 /\ UNCHANGED <<st, nrem>>
+       /\ l' = l + 1 /\ UNCHANGED st
 
-Next == Reset \/ Inv \/ Ret \/ \E p \in Procs : Lin(p)
+\* the end of a history that did not run to completion (a forced schedule whose
+\* model state is stuck, a free-running program stopped by the watchdog): a
+\* RemoveHead that never returned is rightly blocked only if, in some
+\* explanation of the history, the queue is empty and open at the end
+End == /\ l <= Len(Trace) /\ Trace[l].e = "end"
+       /\ \A p \in Procs : IF pend[p].s = "inv" THEN (pend[p].c.op = "rem" => (st.q = <<>> /\ ~st.closed))
+                            ELSE IF pend[p].s = "lin" THEN pend[p].op # "rem"   \* a removal that took effect must have returned
+                            ELSE TRUE
+       /\ l' = l + 1 /\ UNCHANGED <<st, pend, nadd, nrem>>
+
+Next == Reset \/ Inv \/ Ret \/ End \/ \E p \in Procs : Lin(p)
 
 Spec == Init /\ [][Next]_vars
 
